@@ -35,7 +35,7 @@ m = {
                  'kind_free_text': 'TLC (exhaustive bounded model checking + trace validation) bound to the unmodified headers through a force-included '
                                    'substitution layer and a deterministic cooperative scheduler'}],
     'checks': checks,
-    'notes': 'See DESIGN.md. Every check honours VERIF_SEED, VERIF_TIER and VERIF_REPO (default /repo). exit 2 = infrastructure failure (no verdict).',
+    'notes': 'See DESIGN.md. Every check honours VERIF_SEED, VERIF_TIER and VERIF_REPO (default /repo). exit 2 = infrastructure failure (no verdict). DRIFT / NOTE lines are informational (exit 0): DRIFT = a recorded execution or a replayed model path is not a behaviour of the algorithm-level specification (the code changed; the property monitors decide); NOTE = e.g. a thorough breadth-first run stopped by its time budget. Quick tier: 1-5 minutes per property on 16 cores; thorough tier: 5-25 minutes (budgets in vlib/engine.py, DESIGN 8). 80 seeded changes with demonstrations are under seeded/ (seeded/MATRIX.txt: 78 caught by the check of their own property).',
     'not_applicable': na,
 }
 json.dump(m, open(os.path.join(V, 'MANIFEST.json'), 'w'), indent=1)
